@@ -69,25 +69,6 @@ def replay_population(col, item):
                                               "expected_any_of": adm, "observed": data})
             if len(adm) > 1 or (adm != [0] and not any(2 * f[1] <= h <= 2 * f[2] for f in files)):
                 col.nontrivial.add((json.dumps(case["F"]), h, layout))
-        # history independence: after the coverage of the files is redefined on the SAME object (time_coverage is
-        # part of what a name means for templates without end fields) the answers are those of a fresh object
-        if style.startswith("uniform"):
-            fs.time_coverage = None                      # the files become discrete
-            fresh = tree.fileset(handler=PickleHandler(), time_coverage=None)
-            for h, _ in case["close"]:
-                t = emb.half(h)
-                try:
-                    a, b = closest(fs, tree, t, None), closest(fresh, tree, t, None)
-                except Exception as ex:
-                    col.violation("closest-raises-" + type(ex).__name__ + "-after-time_coverage-change",
-                                  {"abstract": {"F": case["F"], "half_tick": h}, "observed": repr(ex)[:200]})
-                    break
-                col.count(1)
-                if a != b:
-                    col.violation("closest-depends-on-earlier-time_coverage", {"abstract": {"F": case["F"], "half_tick": h},
-                                  "concrete": {"embedding": emb_name, "layout": layout, "style": style},
-                                  "expected": b, "observed": a})
-                    break
         # independence of OTHER objects: a copy of the fileset that is narrowed to a tag no file carries (and asked once)
         # leaves the answers of the original as they were
         if "{tag}" in tree.tmpl:
@@ -110,6 +91,25 @@ def replay_population(col, item):
                                        "concrete": {"embedding": emb_name, "layout": layout, "style": style},
                                        "expected_any_of": adm, "observed": got})
                         break
+        # history independence: after the coverage of the files is redefined on the SAME object (time_coverage is
+        # part of what a name means for templates without end fields) the answers are those of a fresh object
+        if style.startswith("uniform"):
+            fs.time_coverage = None                      # the files become discrete
+            fresh = tree.fileset(handler=PickleHandler(), time_coverage=None)
+            for h, _ in case["close"]:
+                t = emb.half(h)
+                try:
+                    a, b = closest(fs, tree, t, None), closest(fresh, tree, t, None)
+                except Exception as ex:
+                    col.violation("closest-raises-" + type(ex).__name__ + "-after-time_coverage-change",
+                                  {"abstract": {"F": case["F"], "half_tick": h}, "observed": repr(ex)[:200]})
+                    break
+                col.count(1)
+                if a != b:
+                    col.violation("closest-depends-on-earlier-time_coverage", {"abstract": {"F": case["F"], "half_tick": h},
+                                  "concrete": {"embedding": emb_name, "layout": layout, "style": style},
+                                  "expected": b, "observed": a})
+                    break
     finally:
         tree.remove()
 
